@@ -113,3 +113,14 @@ def frame(stream, cuts, stored=()):
 
 def seg_digest(hdr, msgs):
     return [dg(hdr), [dg(m) for m in msgs]]
+
+
+def is_wellformed(buf):
+    """the member is a sequence of chunks with marker 0 that covers the file exactly and holds a walkable stream"""
+    try:
+        if any(m != 0 for m, _, _ in read_chunks(buf)):
+            return False
+        walk_segments(stream_of(buf))
+        return True
+    except Exception:  # noqa: BLE001
+        return False
